@@ -1,0 +1,59 @@
+//go:build verif
+
+package kmipclient
+
+// Contracts for the gocv verifier (see /verif/DESIGN.md). Comment-only; compiled only with -tags verif.
+
+// ---------------------------------------------------------------------------
+// client middleware chain (C19)
+
+//@ ghostvar cmwCalls int
+//@ ghostvar cmwSelf kmipclient.Middleware
+//@ ghostvar cmwNext kmipclient.Next
+//@ ghostvar cmwCtx context.Context
+//@ ghostvar cmwMsg *kmip.RequestMessage
+//@ ghostvar cmwRet *kmip.ResponseMessage
+//@ ghostvar cmwErr error
+//@ ghostvar rtCalls int
+//@ ghostvar rtCtx context.Context
+//@ ghostvar rtMsg *kmip.RequestMessage
+//@ ghostvar rtRet *kmip.ResponseMessage
+//@ ghostvar rtErr error
+
+//@ functype kmipclient.Middleware
+//@   params next, ctx, msg
+//@   results r, e
+//@   pure
+//@   ghost cmwCalls = old(cmwCalls) + 1
+//@   ghost cmwSelf = self
+//@   ghost cmwNext = next
+//@   ghost cmwCtx = ctx
+//@   ghost cmwMsg = msg
+//@   ghost cmwRet = r
+//@   ghost cmwErr = e
+
+//@ func (*Client).doRountrip
+//@   requires c != nil
+//@   pure
+//@   ghost rtCalls = old(rtCalls) + 1
+//@   ghost rtCtx = ctx
+//@   ghost rtMsg = msg
+//@   ghost rtRet = r0
+//@   ghost rtErr = r1
+
+//@ func (*Client).nextAt$1
+//@   requires c != nil && 0 <= i && (i < len(c.middlewares) ==> c.middlewares[i] != nil)
+//@   ensures i < len(c.middlewares) ==> cmwCalls == old(cmwCalls)+1 && rtCalls == old(rtCalls) && cmwSelf == c.middlewares[i] && cmwCtx == ctx && cmwMsg == req && r0 == cmwRet && r1 == cmwErr
+//@   ensures i < len(c.middlewares) ==> isclosure(cmwNext, "(*Client).nextAt$1") && capt(cmwNext, "i") == i+1 && capt(cmwNext, "c") == c
+//@   ensures i >= len(c.middlewares) ==> cmwCalls == old(cmwCalls) && rtCalls == old(rtCalls)+1 && rtCtx == ctx && rtMsg == req && r0 == rtRet && r1 == rtErr
+//@   ensures i == old(i) && c == old(c)
+//@   ghostmod cmwCalls, cmwSelf, cmwNext, cmwCtx, cmwMsg, cmwRet, cmwErr, rtCalls, rtCtx, rtMsg, rtRet, rtErr
+//@   pure
+
+// Roundtrip enters the chain at stage 0 with its own arguments.
+//@ func (*Client).Roundtrip
+//@   requires c != nil && (0 < len(c.middlewares) ==> c.middlewares[0] != nil)
+//@   ensures 0 < len(c.middlewares) ==> cmwCalls == old(cmwCalls)+1 && cmwSelf == c.middlewares[0] && cmwCtx == ctx && cmwMsg == msg && r0 == cmwRet && r1 == cmwErr
+//@   ensures len(c.middlewares) == 0 ==> rtCalls == old(rtCalls)+1 && rtCtx == ctx && rtMsg == msg && r0 == rtRet && r1 == rtErr
+//@   ghostmod cmwCalls, cmwSelf, cmwNext, cmwCtx, cmwMsg, cmwRet, cmwErr, rtCalls, rtCtx, rtMsg, rtRet, rtErr
+//@   pure
